@@ -602,7 +602,9 @@ def _run(ctx, rec, tools, axgen, srcdir, shm, thorough, R, NGEN, rng, committed_
         ("accepted %d lines, %d keys" % (report["lines"], report["keys"])) if report else "no accepted remainder",
         len(rejections), ", ".join("%s->%s" % (x["kind"], x["got"][1] if x["got"] else "ACCEPTED") for x in selftest)))
 
-    # 6. evidence
+    # 6. evidence (a replay of one package does not overwrite the evidence of a full run)
+    if only:
+        return
     gens = [e for e in events if e["k"] == "gen"]
     bykey = {}
     for e in gens:
